@@ -29,7 +29,7 @@ struct JsonGen {
         o.push_back('"');
         size_t n = (size_t)r.below(maxlen + 1);
         for (size_t i = 0; i < n; i++) {
-            uint64_t k = r.below(24);
+            uint64_t k = r.below(25);
             uint32_t cp;
             if (k < 12)
                 cp = (uint32_t)"abcdefghij k"[k];
@@ -55,7 +55,11 @@ struct JsonGen {
                 cp = 0x10000 + (uint32_t)r.below(0x40000); // pairs with a high surrogate in D800..D8FF
             else if (k == 22)
                 cp = 0x50000 + (uint32_t)r.below(0xC0000);
-            else
+            else if (k == 23) {
+                // wide units whose low byte is a unit with a meaning of its own (quote, backslash, control, space, NUL)
+                static const uint32_t look[] = {0x0122, 0x015C, 0x012F, 0x2013, 0x010A, 0x0109, 0x0120, 0x0100, 0x017F, 0x1F622, 0x1F65C, 0x2022, 0x205C};
+                cp = look[r.below(sizeof(look) / sizeof(look[0]))];
+            } else
                 cp = '0' + (uint32_t)r.below(10);
             bool must_escape = cp < 0x20 || cp == '"' || cp == '\\';
             bool escape      = must_escape || r.chance(1, 6);
